@@ -246,7 +246,7 @@ def run_job(job):
                    and not (e.get('who') == 'r' and e.get('role') in ('used', 'spare', 'extra') and e['ev'] != 'Full')]
             rec['l2'] = {'steps': len(want), 'followed': guided.followed, 'skipped': guided.skipped,
                          'exact': got[:len(want)] == want}
-        if res.status != 'ok' or res.exc is not None:
+        if res.status != 'ok' or res.exc is not None or res.thread_errors:
             rec.update(detail=res.detail, waitmap=res.waitmap, exc=repr(res.exc) if res.exc is not None else None,
                        leftover=res.leftover, thread_errors=res.thread_errors)
             hangs.append(rec)
